@@ -101,6 +101,13 @@ var (
 	ErrSignatureEmpty = errors.New("signature is empty")
 )
 
+// Validate performs stateless validation of a signed header, including its signature.
+// It shadows the promoted Header.Validate, which go-header calls on every received
+// header and which checks only that a proposer address is present.
+func (sh *SignedHeader) Validate() error {
+	return sh.ValidateBasic()
+}
+
 // ValidateBasic performs basic validation of a signed header.
 func (sh *SignedHeader) ValidateBasic() error {
 	if err := sh.Header.ValidateBasic(); err != nil {
